@@ -31,7 +31,8 @@ META = {
                   "the model by construction (each observed class is reported, keyed by defect mechanism where one is recognised and "
                   "by (exception class, raising function) otherwise; none is assumed absent). The per-line tokenizer and the LR driver "
                   "are arguments of the model (they are modelled in Lex/ and LR/). corpus/C16 holds one shrunk input per class seen so "
-                  "far and is replayed first, so the listed classes are re-derived on every run for every seed; the quick tier adds "
+                  "far and is replayed first, so the listed classes are re-derived on every run for every seed; every run also compiles the 1620 keyword-position "
+                  "modules (each $-keyword of tokenizer.LITERAL_TOKEN_PATTERNS in each expression position); the quick tier adds "
                   "800 fresh inputs per run, the thorough tier 30000 (the tail of rare crash classes is long: about one new class per "
                   "20000 inputs in development). Generated field widths above 65536 are cut down: the front end computes 2**width for "
                   "them (minutes and gigabytes from about 2**30 on; recorded once as finding "
@@ -536,6 +537,8 @@ def load_corpus():
 def build_inputs(ctx, n_fuzz):
     """The corpus of minimised past failures first, then n_fuzz distinct generated inputs."""
     inputs = [(lab, txt) for lab, txt, _ in load_corpus()]
+    # seed-independent: every `$`-keyword, in six forms, in every expression position
+    inputs += gen_fuzz.keyword_position_cases()
     n_corpus = len(inputs)
     seen = set()
     while len(inputs) < n_fuzz + n_corpus:
@@ -557,6 +560,7 @@ N_MODEL_QUICK, N_FUZZ_QUICK = 120, 800
 def run(ctx):
     ctx.rule = ("model: random sources/messages/error lists/scripted pass outputs/parse errors against each mirrored Python function; "
                 "pipeline: mixture of random bytes, token soup, grammar derivations from module_ir.PRODUCTIONS, semantic soup, "
+                "the full enumeration of every $-keyword x 6 forms x 18 expression positions (seed independent), "
                 "targeted families (block opened at EOF, $present(param), param.member, bound-of-constant, zero width, odd references, "
                 "multi-cycle, deep nesting), token/line mutations of testdata/*.emb and of gen_expr modules, <= 300 lines; "
                 "a case is non-trivial when the tokenizer accepts it; distinct by text")
